@@ -260,6 +260,7 @@ Definition exec_cmp (c : cmpop) (a b : val) : opres :=
 
 Definition exec_un (u : unop) (a : val) : opres :=
   match u with
+  | UId => ret a
   | UNot => match truthy a with Some t => bool_val (negb t) | None => unk [a] end
   | _ => match a with
          | VInt x => ret (VInt (match u with UNeg => - x | UInvert => - x - 1 | _ => x end))
@@ -286,13 +287,21 @@ Definition builtin_member_known (v : val) (n : string) : bool :=
 
 (* getattr(obj, n): value or exception class, and whether the answer is only a guess *)
 Inductive gres := GVal (v : val) (taint : bool) | GExc (cls : string).
+(* names of the runtime's own namespace (__class__, __dict__, __init__, ...): every Python value has some
+   of them and what they give (classes, functions, module globals) is outside the value universe *)
+Definition is_dunder (n : string) : bool := String.prefix "__" n.
 Definition getattr_val (h : heap) (obj : val) (n : string) : gres :=
   match obj with
-  | VObj i => match assoc n (heap_attrs h i) with Some v => GVal v false | None => GExc "AttributeError" end
-  | VNone => GExc "AttributeError"
+  | VObj i => match assoc n (heap_attrs h i) with
+              | Some v => GVal v false
+              | None => if is_dunder n then GVal VForeign true else GExc "AttributeError" end
   | VOpaque => GVal VOpaque true
   | VForeign => GVal VForeign true
-  | _ => GVal (VBoundMethod obj n) (negb (builtin_member_known obj n))
+  | _ => if is_dunder n then GVal VForeign true
+         else match obj with
+              | VNone => GExc "AttributeError"
+              | _ => GVal (VBoundMethod obj n) (negb (builtin_member_known obj n))
+              end
   end.
 
 (* ------------------------------------------------------------------ str.format / str.format_map *)
@@ -690,10 +699,12 @@ Definition get_value (locals : env) (i : item) : xres :=
   | ITok _ => XX "ValueError" []
   end.
 
-Definition get_member (h : heap) (obj : val) (member : item) : opres :=
+(* `guard` is get_member's test on the member name; the model of the code instantiates it with the TRANSLATED
+   guard (eval, below); the theorems are proved for any guard so that a repaired guard can be shown sufficient *)
+Definition get_member (guard : string -> bool) (h : heap) (obj : val) (member : item) : opres :=
   match member with
   | ITok (TId n) =>
-      if member_allowed n then
+      if guard n then
         match getattr_val h obj n with
         | GVal v t => RV v [ReadAttr ByMember obj n] t
         | GExc c => RX c [ReadAttr ByMember obj n]
@@ -709,9 +720,9 @@ Definition get_member (h : heap) (obj : val) (member : item) : opres :=
   end.
 
 (* ------------------------------------------------------------------ the operators *)
-Definition exec_sem (h : heap) (sem : opsem) (args : list item) : opres :=
+Definition exec_sem (guard : string -> bool) (h : heap) (sem : opsem) (args : list item) : opres :=
   match sem, args with
-  | SMember, [IVal a; m] => get_member h a m
+  | SMember, [IVal a; m] => get_member guard h a m
   | SMember, _ => RV VOpaque [] true        (* expand flags changed: not modelled *)
   | SGetitem, [IVal a; IVal b] => getitem a b
   | SCall, [IVal a; IVal b] => exec_call h a b
@@ -754,7 +765,7 @@ Fixpoint all_values (l : list item) : list val :=
 Record mstate := { m_stack : list item; m_log : list event; m_taint : bool }.
 Inductive mres := MOk (s : mstate) | MExc (cls : string) (log : list event) (taint : bool).
 
-Definition step (h : heap) (locals : env) (t : token) (s : mstate) : mres :=
+Definition step (guard : string -> bool) (h : heap) (locals : env) (t : token) (s : mstate) : mres :=
   match t with
   | TColl size kind =>
       let (top, rest) := take_top size (m_stack s) in
@@ -775,7 +786,7 @@ Definition step (h : heap) (locals : env) (t : token) (s : mstate) : mres :=
           | Some c => MExc c (m_log s ++ evs) (m_taint s)
           | None =>
               if negb (Nat.eqb (List.length args) (op_params o)) then MExc "TypeError" (m_log s ++ evs) (m_taint s)
-              else match exec_sem h (op_sem o) args with
+              else match exec_sem guard h (op_sem o) args with
                    | RV v e t => MOk {| m_stack := IVal v :: rest; m_log := m_log s ++ evs ++ e; m_taint := m_taint s || t |}
                    | RX c e => MExc c (m_log s ++ evs ++ e) (m_taint s)
                    end
@@ -784,11 +795,11 @@ Definition step (h : heap) (locals : env) (t : token) (s : mstate) : mres :=
   | _ => MOk {| m_stack := ITok t :: m_stack s; m_log := m_log s; m_taint := m_taint s |}
   end.
 
-Fixpoint run (h : heap) (locals : env) (rpn : list token) (s : mstate) : mres :=
+Fixpoint run (guard : string -> bool) (h : heap) (locals : env) (rpn : list token) (s : mstate) : mres :=
   match rpn with
   | [] => MOk s
-  | t :: r => match step h locals t s with
-              | MOk s1 => run h locals r s1
+  | t :: r => match step guard h locals t s with
+              | MOk s1 => run guard h locals r s1
               | e => e end
   end.
 
@@ -813,9 +824,14 @@ Definition finish (locals : env) (r : mres) : result :=
       end
   end.
 
-(* Expression(rpn).eval(locals=locals) with the default globals (the translated whitelist) *)
-Definition eval (rpn : list token) (h : heap) (locals : env) : result :=
-  finish locals (run h locals rpn m_init).
+Definition eval_g (guard : string -> bool) (rpn : list token) (h : heap) (locals : env) : result :=
+  finish locals (run guard h locals rpn m_init).
+
+(* Expression(rpn).eval(locals=locals) with the default globals (the translated whitelist) and the translated guard *)
+Definition eval (rpn : list token) (h : heap) (locals : env) : result := eval_g member_allowed rpn h locals.
+
+(* the guard the repair of D12 would install: also refuse the attribute-reading members *)
+Definition repaired_guard (n : string) : bool := negb (is_private n) && negb (is_fmt n).
 
 (* ------------------------------------------------------------------ correspondence *)
 Definition planted (h : heap) (i : nat) (n : string) : bool := is_some (assoc n (heap_attrs h i)).
